@@ -416,7 +416,7 @@ type pureResult struct {
 
 // pureCall symbolically evaluates fn (ghost / spec code) on all paths and merges the results.
 func (m *Machine) pureCall(st *State, fn *ssa.Function, args []Value, fvals []Value) []Value {
-	sub := &State{pure: true, opaque: st.opaque, evBase: st.evBase, ghostCells: st.ghostCells, guardSnaps: st.guardSnaps, guardVals: st.guardVals, closerFresh: st.closerFresh, closerSpawned: st.closerSpawned, reads: st.reads, recDone: st.recDone, heap: cloneHeap(st.heap), locks: st.locks, chanQ: map[int][]chanQuery{}, chanVer: st.chanVer, definable: st.definable, defs: st.defs}
+	sub := &State{pure: true, opaque: st.opaque, opaqueNfresh: st.opaqueNfresh, evBase: st.evBase, ghostCells: st.ghostCells, guardSnaps: st.guardSnaps, guardVals: st.guardVals, closerFresh: st.closerFresh, closerSpawned: st.closerSpawned, reads: st.reads, recDone: st.recDone, heap: cloneHeap(st.heap), locks: st.locks, chanQ: map[int][]chanQuery{}, chanVer: st.chanVer, definable: st.definable, defs: st.defs}
 	sub.pc = append([]*Term{}, st.pc...)
 	sub.events = st.events
 	sub.fresh = make([]*freshObj, len(st.fresh))
@@ -697,9 +697,12 @@ func init() {
 			default:
 				panic(unsupported("fresh() of non-reference"))
 			}
-			top := st.frames[0]
-			_ = top
-			return m.ctx.ILt(m.ctx.IntBig(new(big.Int).Add(freshBase, big.NewInt(int64(m.entryFresh(st))))), r)
+			since := m.entryFresh(st)
+			if st.opaque != 0 {
+				// a callee's clause, assumed at the call site: allocated during that call
+				since = st.opaqueNfresh
+			}
+			return m.ctx.ILt(m.ctx.IntBig(new(big.Int).Add(freshBase, big.NewInt(int64(since)))), r)
 		},
 		"arrayOf": func(m *Machine, st *State, fr *Frame, instr ssa.Instruction, fn *ssa.Function, args []Value) Value {
 			s := args[0].(*Slice)
@@ -1070,11 +1073,10 @@ func init() {
 			return m.ctx.App("chanCapOf", IntSort, args[0].(*Term))
 		},
 		"iterFresh": func(m *Machine, st *State, fr *Frame, instr ssa.Instruction, fn *ssa.Function, args []Value) Value {
-			if m.iterCut == nil {
-				m.problem("iterFresh used outside a loop iter clause")
-				return m.ctx.F
-			}
-			return m.ctx.Bool(m.isFreshAfter(st, args[0].(*Ptr).Ref, m.iterCut.freshAt))
+			return m.iterFreshTerm(st, args[0])
+		},
+		"iterFreshArr": func(m *Machine, st *State, fr *Frame, instr ssa.Instruction, fn *ssa.Function, args []Value) Value {
+			return m.iterFreshTerm(st, args[0])
 		},
 		"closed": func(m *Machine, st *State, fr *Frame, instr ssa.Instruction, fn *ssa.Function, args []Value) Value {
 			return m.chanClosed(st, args[0].(*Term))
@@ -1203,6 +1205,28 @@ func init() {
 	}
 }
 
+
+// iterFreshTerm: the object (or backing array) was allocated after the current loop cut. Objects are
+// numbered by a global, monotone allocation counter, so this is a comparison of reference numbers.
+func (m *Machine) iterFreshTerm(st *State, v Value) *Term {
+	if m.iterCut == nil {
+		m.problem("iterFresh used outside a loop iter clause")
+		return m.ctx.F
+	}
+	var ref *Term
+	switch x := v.(type) {
+	case *Ptr:
+		ref = x.Ref
+	case *Slice:
+		ref = x.Arr
+	default:
+		panic(unsupported("iterFresh of non-reference"))
+	}
+	if m.isFreshAfter(st, ref, m.iterCut.freshAt) {
+		return m.ctx.T
+	}
+	return m.ctx.ILt(m.ctx.IntBig(new(big.Int).Add(freshBase, big.NewInt(int64(m.iterCut.nfreshAt)))), ref)
+}
 
 func (m *Machine) entryFresh(st *State) int {
 	if len(st.frames) == 0 {
